@@ -426,6 +426,7 @@ class Env:
         self.sub_hooks: list[Callable[["Env", ast.Subscript], Any]] = []  # subscript models
         self.count_assumption: Optional[Callable[[Lin], None]] = None  # called when a loop count is assumed >= 0
         self.comp_hooks: list[Callable[["Env", ast.AST], Any]] = []  # comprehension models
+        self.assume_hooks: list[Callable[["Env", ast.Call, bool], bool]] = []  # branch conditions that are helper calls
 
     def copy(self) -> "Env":
         e = Env(self.facts.copy(), self.int_attrs)
@@ -434,6 +435,7 @@ class Env:
         e.sub_hooks = list(self.sub_hooks)
         e.count_assumption = self.count_assumption
         e.comp_hooks = list(self.comp_hooks)
+        e.assume_hooks = list(self.assume_hooks)
         return e
 
     def symbol(self, path: str, integer: bool = True) -> Lin:
@@ -768,6 +770,11 @@ def assume(env: Env, test: ast.AST, polarity: bool) -> None:
     f = env.facts
     if isinstance(test, ast.UnaryOp) and isinstance(test.op, ast.Not):
         return assume(env, test.operand, not polarity)
+    if isinstance(test, ast.Call):
+        for h in env.assume_hooks:
+            if h(env, test, polarity):
+                return
+        return
     if isinstance(test, ast.Name) and hasattr(env.vars.get(test.id), "with_truth"):
         env.vars[test.id] = env.vars[test.id].with_truth(polarity)   # e.g. a filtered list known (non-)empty on this path
         return
